@@ -459,6 +459,11 @@ func (s *controlledSelector) HandleSuccessResponse(
 			s.log.Tracef("Ignore nominate new pair %s, already nominated pair %s", pair, selectedPair)
 		}
 	}
+	// The pair is valid now: the deferred nomination has been evaluated and is
+	// consumed. A later response on this pair (e.g. to a keepalive) must not
+	// apply it again.
+	pair.nominateOnBindingSuccess = false
+	pair.renominateOnBindingSuccess = false
 
 	pair.UpdateRoundTripTime(rtt)
 }
